@@ -90,7 +90,14 @@ func genC04(t *rapid.T, all bool) c04Case {
 			c.Resume = append(c.Resume, rapid.IntRange(0, 1000).Draw(t, "resumeat"))
 		}
 	}
-	if rapid.IntRange(0, 5).Draw(t, "fail") == 0 && alwaysRuns(c.Prog, c.Run.Output) {
+	if c.Run.Start+1 > c.Head {
+		c.Run.Start = c.Head - 1 // the bias above may push the range beyond the head of the chain
+		if c.Run.Stop != 0 && c.Run.Stop <= c.Run.Start {
+			c.Run.Stop = c.Run.Start + 1
+		}
+	}
+	// (no injected failure for final_blocks_only requests: the failing block may never become final)
+	if !c.Run.FinalOnly && rapid.IntRange(0, 5).Draw(t, "fail") == 0 && alwaysRuns(c.Prog, c.Run.Output) {
 		hi := c.Run.Stop
 		if hi == 0 {
 			hi = c.Head
